@@ -33,7 +33,7 @@ ANCHORED = {   # header -> checks whose properties are anchored in it (C20 is ju
 STRING_RANGES = [(96, 140), (310, 540), (2740, 2810)]      # st_string.h: _set_utf8, set/operator= family, operator+= (the mutators C04/C18/C19 name)
 
 def sh(cmd, **kw):
-    return subprocess.run(cmd, stdout=subprocess.PIPE, stderr=subprocess.STDOUT, text=True, **kw)
+    return subprocess.run(cmd, stdout=subprocess.PIPE, stderr=subprocess.STDOUT, text=True, errors="replace", **kw)
 
 def candidates(fname, lines):
     """yield (lineno, description, new_lines_for_that_position) - purely textual, one site at a time"""
@@ -99,7 +99,7 @@ def suite(tree, tmp):
 def run_check(prop, tree, scratch):
     env = dict(os.environ, VERIF_REPO=tree, VERIF_EVIDENCE_DIR=scratch, VERIF_REPLAY_DIR=scratch, VERIF_VARIANTS="plain")
     try:
-        r = subprocess.run([sys.executable, os.path.join(VERIF, "tools", "check.py"), prop, "--tier", "quick"], stdout=subprocess.PIPE, stderr=subprocess.STDOUT, text=True, env=env, cwd=VERIF, timeout=1200)
+        r = subprocess.run([sys.executable, os.path.join(VERIF, "tools", "check.py"), prop, "--tier", "quick"], stdout=subprocess.PIPE, stderr=subprocess.STDOUT, text=True, errors="replace", env=env, cwd=VERIF, timeout=1200)
     except subprocess.TimeoutExpired:
         return 2, "timeout"
     cls = re.findall(r"violation class=(\S+) site=(\S+)", r.stdout)
